@@ -30,17 +30,35 @@
     nt_min_value nt_max_value nt_zero nt_one          (no args)→ hex
     nt_is_zero nt_is_one                              a        → bool
     nt_from_str_radix                                 radix <hexbytes> → as Drive/C10
+    -- least-used entry points (all called through the traits)
+    nt_divides (deprecated alias of is_multiple_of)   a b      → bool / `P`
+    nt_div_ceil nt_next_multiple_of nt_prev_multiple_of   [dbg|rel] a b → hex / `P`  (num-integer's
+                                                      provided methods on the crate's operators)
+    nt_gcd_lcm                                        [dbg|rel] a b → `(g,l)` / `P`
+    nt_inc nt_dec                                     [dbg|rel] a   → hex / `P`
+    nt_mul_add_assign                                 [dbg|rel] a b c → hex / `P`
+    nt_primint_pow (`PrimInt::pow`)                   [dbg|rel] a e → hex / `P`
+    nt_saturating_add_ref nt_saturating_sub_ref nt_saturating_mul_ref  a b → hex
+                                                      (`SaturatingAdd/Sub/Mul`, by reference)
+    nt_checked_shl nt_checked_shr                     a k      → `S(x)` / `N`
+    nt_wrapping_shl nt_wrapping_shr                   a k      → hex
+    nt_leading_ones nt_trailing_ones                  a        → decimal
+    nt_reverse_bits nt_from_be nt_from_le             a        → hex
 
   Ops whose result depends on the build profile (so the harness must send the profile word, or keep
   the inputs away from the overflow): gcd / lcm (only when the result is not representable),
   nt_pow, nt_mul_add, nt_abs (`MIN`), nt_abs_sub (overflowing difference), the four PrimInt shifts
   (amount `≥ BITS`).  Everything else is profile independent.
-  Spec answers: `*` = left open by the property (gcd / lcm not representable, `MIN / -1`),
-  `P|x` = alternatives.
+  Spec answers: `*` = left open by the property (gcd / lcm not representable; the wrapped amount of
+  a shift by `≥ BITS` in a release build at a width that is not a power of two), `P|x` = alternatives
+  (only `is_multiple_of(x, 0)`: the crate panics, num-integer's primitive impls answer `x == 0`, the
+  trait documentation is silent).  `MIN / -1` is `P` in the whole division family, in both build
+  profiles, like the primitive integers (theorem `i_min_neg_one`).
 -/
 import Bnum.Drive.Util
 import Bnum.Drive.C10
 import Bnum.Model.NumTraits
+import Bnum.Model.C18Extra
 import Bnum.Spec.NumTraits
 import Bnum.Spec.Shift
 import Bnum.Spec.Endian
@@ -93,26 +111,26 @@ def handle : Handler := fun c op0 args0 =>
     let x := valOf c a; let y := valOf c b
     let mo := if sg then NumT.I.divFloor dbg w a b
               else NumT.U.divFloor w a b
-    some (moV c mo, if y = 0 then "P" else if divOverflow sg m x y then "*" else pat (Int.fdiv x y))
+    some (moV c mo, if y = 0 then "P" else if divOverflow sg m x y then "P" else pat (Int.fdiv x y))
   | "mod_floor", [sa, sb] => do
     let a ← parseVal c sa; let b ← parseVal c sb
     let x := valOf c a; let y := valOf c b
     let mo := if sg then NumT.I.modFloor dbg w a b
               else NumT.U.modFloor w a b
-    some (moV c mo, if y = 0 then "P" else if divOverflow sg m x y then "P|0" else pat (Int.fmod x y))
+    some (moV c mo, if y = 0 then "P" else if divOverflow sg m x y then "P" else pat (Int.fmod x y))
   | "div_rem", [sa, sb] => do
     let a ← parseVal c sa; let b ← parseVal c sb
     let x := valOf c a; let y := valOf c b
     let mo := if sg then NumT.I.divRem dbg w a b
               else NumT.U.divRem w a b
-    some (moVV c mo, if y = 0 then "P" else if divOverflow sg m x y then "*"
+    some (moVV c mo, if y = 0 then "P" else if divOverflow sg m x y then "P"
       else "(" ++ pat (Int.tdiv x y) ++ "," ++ pat (Int.tmod x y) ++ ")")
   | "div_mod_floor", [sa, sb] => do
     let a ← parseVal c sa; let b ← parseVal c sb
     let x := valOf c a; let y := valOf c b
     let mo := if sg then NumT.I.divModFloor dbg w a b
               else NumT.U.divModFloor w a b
-    some (moVV c mo, if y = 0 then "P" else if divOverflow sg m x y then "*"
+    some (moVV c mo, if y = 0 then "P" else if divOverflow sg m x y then "P"
       else "(" ++ pat (Int.fdiv x y) ++ "," ++ pat (Int.fmod x y) ++ ")")
   | "is_multiple_of", [sa, sb] => do
     let a ← parseVal c sa; let b ← parseVal c sb
@@ -120,7 +138,44 @@ def handle : Handler := fun c op0 args0 =>
     let mo := if sg then NumT.I.isMultipleOf dbg w a b
               else NumT.U.isMultipleOf w a b
     some (moB mo, if y = 0 then "P|" ++ showBool (x == 0)
-      else if divOverflow sg m x y then "P|true" else showBool (x % y == 0))
+      else if divOverflow sg m x y then "P" else showBool (x % y == 0))
+  | "divides", [sa, sb] => do
+    let a ← parseVal c sa; let b ← parseVal c sb
+    let x := valOf c a; let y := valOf c b
+    let mo := if sg then NumT.I.divides dbg w a b
+              else NumT.U.divides w a b
+    some (moB mo, if y = 0 then "P|" ++ showBool (x == 0)
+      else if divOverflow sg m x y then "P" else showBool (x % y == 0))
+  /- ---------------- Integer: num-integer's provided methods ---------------- -/
+  | "div_ceil", [sa, sb] => do
+    let a ← parseVal c sa; let b ← parseVal c sb
+    let x := valOf c a; let y := valOf c b
+    some (moV c (if sg then NumT.I.divCeil dbg w a b else NumT.U.divCeil dbg w a b),
+      if y = 0 then "P" else if divOverflow sg m x y then "P" else pat (-(Int.fdiv (-x) y)))
+  | "next_multiple_of", [sa, sb] => do
+    let a ← parseVal c sa; let b ← parseVal c sb
+    let x := valOf c a; let y := valOf c b
+    let r := Int.fmod x y
+    some (moV c (if sg then NumT.I.nextMultipleOf dbg w a b else NumT.U.nextMultipleOf dbg w a b),
+      if y = 0 then "P" else if divOverflow sg m x y then "P"
+      else opRes (if r = 0 then x else x + (y - r)))
+  | "prev_multiple_of", [sa, sb] => do
+    let a ← parseVal c sa; let b ← parseVal c sb
+    let x := valOf c a; let y := valOf c b
+    some (moV c (if sg then NumT.I.prevMultipleOf dbg w a b else NumT.U.prevMultipleOf dbg w a b),
+      if y = 0 then "P" else if divOverflow sg m x y then "P" else opRes (x - Int.fmod x y))
+  | "gcd_lcm", [sa, sb] => do
+    let a ← parseVal c sa; let b ← parseVal c sb
+    let g := NumT.gcdInt (valOf c a) (valOf c b)
+    let l := NumT.lcmInt (valOf c a) (valOf c b)
+    some (moVV c (if sg then NumT.I.gcdLcm dbg w a b else NumT.U.gcdLcm dbg w a b),
+      if rep sg m g && rep sg m l then "(" ++ toHex g ++ "," ++ toHex l ++ ")" else "*")
+  | "inc", [sa] => do
+    let a ← parseVal c sa
+    some (moV c (if sg then NumT.I.inc dbg w a else NumT.U.inc dbg w a), opRes (valOf c a + 1))
+  | "dec", [sa] => do
+    let a ← parseVal c sa
+    some (moV c (if sg then NumT.I.dec dbg w a else NumT.U.dec dbg w a), opRes (valOf c a - 1))
   | "is_even", [sa] => do
     let a ← parseVal c sa
     some (showBool (if sg then NumT.I.isEven a else NumT.U.isEven a), showBool (valOf c a % 2 == 0))
@@ -204,6 +259,34 @@ def handle : Handler := fun c op0 args0 =>
     let a ← parseVal c sa; let b ← parseVal c sb
     some (showVal c (if sg then NumT.I.saturatingMul w a b else NumT.U.saturatingMul w a b),
       toHex (saturating sg m (valOf c a * valOf c b)))
+  | "saturating_add_ref", [sa, sb] => do
+    let a ← parseVal c sa; let b ← parseVal c sb
+    some (showVal c (if sg then NumT.I.saturatingAddRef w a b else NumT.U.saturatingAddRef w a b),
+      toHex (saturating sg m (valOf c a + valOf c b)))
+  | "saturating_sub_ref", [sa, sb] => do
+    let a ← parseVal c sa; let b ← parseVal c sb
+    some (showVal c (if sg then NumT.I.saturatingSubRef w a b else NumT.U.saturatingSubRef w a b),
+      toHex (saturating sg m (valOf c a - valOf c b)))
+  | "saturating_mul_ref", [sa, sb] => do
+    let a ← parseVal c sa; let b ← parseVal c sb
+    some (showVal c (if sg then NumT.I.saturatingMulRef w a b else NumT.U.saturatingMulRef w a b),
+      toHex (saturating sg m (valOf c a * valOf c b)))
+  | "checked_shl", [sa, sk] => do
+    let a ← parseVal c sa; let k ← sk.toNat?
+    some (showOpt (showVal c) (if sg then NumT.I.checkedShl w a k else NumT.U.checkedShl w a k),
+      if k ≥ bits then "N" else "S(" ++ toHex (Spec.Shift.shlVal bits (valOf c a) k) ++ ")")
+  | "checked_shr", [sa, sk] => do
+    let a ← parseVal c sa; let k ← sk.toNat?
+    some (showOpt (showVal c) (if sg then NumT.I.checkedShr w a k else NumT.U.checkedShr w a k),
+      if k ≥ bits then "N" else "S(" ++ toHex (Spec.Shift.shrVal bits (valOf c a) k) ++ ")")
+  | "wrapping_shl", [sa, sk] => do
+    let a ← parseVal c sa; let k ← sk.toNat?
+    some (showVal c (if sg then NumT.I.wrappingShl w a k else NumT.U.wrappingShl w a k),
+      hexOr ((Spec.Shift.effAmount bits k).map (Spec.Shift.shlVal bits (valOf c a))))
+  | "wrapping_shr", [sa, sk] => do
+    let a ← parseVal c sa; let k ← sk.toNat?
+    some (showVal c (if sg then NumT.I.wrappingShr w a k else NumT.U.wrappingShr w a k),
+      hexOr ((Spec.Shift.effAmount bits k).map (Spec.Shift.shrVal bits (valOf c a))))
   | "overflowing_add", [sa, sb] => do
     let a ← parseVal c sa; let b ← parseVal c sb
     some (showPair c (if sg then NumT.I.overflowingAdd w a b else NumT.U.overflowingAdd w a b),
@@ -218,6 +301,18 @@ def handle : Handler := fun c op0 args0 =>
     some (moV c (if sg then NumT.I.pow w dbg a e else NumT.U.pow w dbg a e),
       if NumT.powRep sg m bits x e then toHex (NumT.powPat m x e)
       else if dbg then "P" else toHex (NumT.powPat m x e))
+  | "primint_pow", [sa, se] => do
+    let a ← parseVal c sa; let e ← se.toNat?
+    let x := valOf c a
+    some (moV c (if sg then NumT.I.primIntPow w dbg a e else NumT.U.primIntPow w dbg a e),
+      if NumT.powRep sg m bits x e then toHex (NumT.powPat m x e)
+      else if dbg then "P" else toHex (NumT.powPat m x e))
+  | "mul_add_assign", [sa, sb, sc] => do
+    let a ← parseVal c sa; let b ← parseVal c sb; let d ← parseVal c sc
+    let x := valOf c a; let y := valOf c b; let z := valOf c d
+    some (moV c (if sg then NumT.I.mulAddAssign dbg w a b d else NumT.U.mulAddAssign dbg w a b d),
+      if dbg && !(rep sg m (x * y)) then "P" else
+        (if rep sg m (x * y) then opRes (x * y + z) else pat (x * y + z)))
   | "mul_add", [sa, sb, sc] => do
     let a ← parseVal c sa; let b ← parseVal c sb; let d ← parseVal c sc
     let x := valOf c a; let y := valOf c b; let z := valOf c d
@@ -282,6 +377,25 @@ def handle : Handler := fun c op0 args0 =>
     let a ← parseVal c sa
     some (toString (if sg then NumT.I.trailingZeros w a else NumT.U.trailingZeros w a),
       toString (Spec.trailingZeros bits (U w a)))
+  | "leading_ones", [sa] => do
+    let a ← parseVal c sa
+    some (toString (if sg then NumT.I.leadingOnes w a else NumT.U.leadingOnes w a),
+      toString (Spec.leadingOnes bits (U w a)))
+  | "trailing_ones", [sa] => do
+    let a ← parseVal c sa
+    some (toString (if sg then NumT.I.trailingOnes w a else NumT.U.trailingOnes w a),
+      toString (Spec.trailingOnes bits (U w a)))
+  | "reverse_bits", [sa] => do
+    let a ← parseVal c sa
+    some (showVal c (if sg then NumT.I.reverseBits w a else NumT.U.reverseBits w a),
+      toHex (Spec.reverseBits bits (U w a)))
+  | "from_be", [sa] => do
+    let a ← parseVal c sa
+    some (showVal c (if sg then NumT.I.fromBe true (w / 8) a else NumT.U.fromBe true (w / 8) a),
+      toHex (Spec.Endian.swapPattern (n * (w / 8)) (U w a)))
+  | "from_le", [sa] => do
+    let a ← parseVal c sa
+    some (showVal c (if sg then NumT.I.fromLe true (w / 8) a else NumT.U.fromLe true (w / 8) a), toHex (U w a))
   | "rotate_left", [sa, sk] => do
     let a ← parseVal c sa; let k ← sk.toNat?
     some (showVal c (if sg then NumT.I.rotateLeft w a k else NumT.U.rotateLeft w a k),
